@@ -111,6 +111,7 @@ def step (s : S) (line : String) : S × String :=
         let (st, m) := verifyConfig g
         (s, statusName st ++ (if m then " msg" else " nomsg"))
       | "dump" => (s, dump g)
+      | "reuse" => ({ s with g := some (reuse g) }, "ok")
       | _ => (s, "bad-op")
   | [] => (s, "bad-op")
 
